@@ -229,10 +229,15 @@ def run_unit(name, workdir, vacuity=False, mutate=None, tag=''):
         if hit is not None:
             res.fn_status[em.path] = bool(hit.get('success'))
     res.obligations = obs
+    hard_infra = [m for m in infra_msgs if not any(r in m.lower() for r in RESOURCE_MSGS)]
+    res.resource_msgs = [m for m in infra_msgs if m not in hard_infra]
     if infra_msgs and not res.failures:
         res.status, res.infra = 'infra', 'verus reported non-verification errors:\n' + '\n'.join(infra_msgs[:6])
+    elif hard_infra:
+        res.status, res.infra = 'infra', 'verus reported non-verification errors next to verification failures:\n' + '\n'.join(hard_infra[:6])
     elif infra_msgs:
-        res.status, res.infra = 'infra', 'verus reported non-verification errors next to verification failures:\n' + '\n'.join(infra_msgs[:6])
+        # definite failed obligations plus a solver resource limit elsewhere: the failures stand
+        res.status = 'failed'
     elif res.failures or res.errors:
         res.status = 'failed'
         if not res.failures:
